@@ -38,7 +38,7 @@ ASSUMPTIONS = [
 ]
 CUR = {}
 T_KINDS = ("int", "float", "str", "bool", "dict", "optional", "literal")
-D_KINDS = ("absent", "int", "negint", "zero", "float", "negfloat", "bool", "str", "strspace")
+D_KINDS = ("absent", "int", "negint", "zero", "float", "negfloat", "bool", "str", "strspace", "strodd", "strquote")
 PK_NAMES = ("id", "node_id", "dataset_name", "id_code")
 
 
@@ -54,7 +54,7 @@ def gen_case(ctx, stream, idx):
         ir = irgen.similar_ir(r, type_kinds=("int", "float", "str", "bool", "literal"), default_kinds=D_KINDS, with_return=False)
     else:
         ir = irgen.rand_ir(r, nparams=n, type_kinds=T_KINDS, default_kinds=D_KINDS, suffix_defaults=False,
-                           with_return=False, doc_kinds=("plain", "plain", "stop"))
+                           with_return=False, doc_kinds=("plain", "plain", "stop", "punct", "quoted"))
     # Optional[..] columns carry no non-None default in this domain
     for p in ir["params"].values():
         if p["typ"].startswith("Literal[") and r.random() < 0.3:
